@@ -444,7 +444,8 @@ pub fn add_neutral_options(rng: &mut Rng, args: &mut Vec<String>, allow_update: 
         args.push(format!("--display-info={}", s));
     }
     if rng.chance(0.15) && !has(args, "--count-df") { args.push("--count-df".into()); }
-    if allow_update && rng.chance(0.25) && !has(args, "--update") { args.push(format!("--update={}", rng.pick(&[-1i64, 0, 1, 3, 30, 600]))); }
+    if allow_update && rng.chance(0.25) && !has(args, "--update") { args.push(format!("--update={}", rng.pick(&[-1i64, 0, 1, 3, 30, 600, 1_000_000, i64::MAX, i64::MIN, i64::MAX / 1000]))); }
+    if rng.chance(0.08) && !has(args, "--error-log") { args.push(format!("--error-log={}", rng.pick(&["/dev/null", "/dev/full"]))); }
     if rng.chance(0.1) && !has(args, "--observer-coord") { args.push(format!("--observer-coord={:.3},{:.3}", rng.f64() * 170.0 - 85.0, rng.f64() * 358.0 - 179.0)); }
 }
 
